@@ -260,6 +260,132 @@ class Fn:
                     dq.append(s)
         return None
 
+    # ------------------------------------------------------------- path-sensitive search
+    def _interesting(self):
+        """locals whose value decides a switch (directly, via discriminant(), or via a copy)"""
+        it = set()
+        for blk in self.blocks:
+            t = blk["t"]
+            if t["t"] == "switch" and t["o"][0] in ("c", "m") and len(t["o"][1]) == 1:
+                it.add(t["o"][1][0])
+        changed = True
+        while changed:
+            changed = False
+            for blk in self.blocks:
+                for s in blk["s"]:
+                    p = s["p"]
+                    if len(p) != 1 or p[0] not in it:
+                        continue
+                    r = s["r"]
+                    k = r.get("k")
+                    src = None
+                    if k == "discr" and len(r["p"]) == 1:
+                        src = r["p"][0]
+                    elif k == "use" and r["o"][0] in ("c", "m") and len(r["o"][1]) == 1:
+                        src = r["o"][1][0]
+                    elif k == "un" and r["o"][0] in ("c", "m") and len(r["o"][1]) == 1:
+                        src = r["o"][1][0]
+                    if src is not None and src not in it:
+                        it.add(src)
+                        changed = True
+        return it
+
+    def _transfer(self, b, known, interesting):
+        """apply block b's statements to the knowledge map (local -> ('v', discr) | ('c', int))"""
+        kn = dict(known)
+        for s in self.blocks[b]["s"]:
+            p = s["p"]
+            r = s["r"]
+            k = r.get("k")
+            if k == "ref" and r.get("m") and r["p"] and r["p"][0] in kn:
+                # mutable borrow: the value may change behind our back
+                del kn[r["p"][0]]
+            if k == "rawptr" and r["p"] and r["p"][0] in kn:
+                del kn[r["p"][0]]
+            l = p[0]
+            if len(p) != 1:
+                if l in kn and not (len(p) >= 2 and isinstance(p[1], str) and p[1].startswith("v:") and False):
+                    # writing a field does not change the variant
+                    pass
+                continue
+            val = None
+            if l in interesting:
+                if k == "agg" and r.get("ak") == "adt" and "dv" in r:
+                    val = ("v", r["dv"])
+                elif k == "setdiscr":
+                    val = None
+                elif k == "use":
+                    o = r["o"]
+                    if o[0] == "k" and "v" in o[1]:
+                        val = ("c", o[1]["v"])
+                    elif o[0] in ("c", "m") and len(o[1]) == 1 and o[1][0] in kn:
+                        val = kn[o[1][0]]
+                elif k == "discr" and len(r["p"]) == 1 and r["p"][0] in kn and kn[r["p"][0]][0] == "v":
+                    val = ("c", kn[r["p"][0]][1])
+                elif k == "un" and r["op"] == "Not" and r["o"][0] in ("c", "m") and len(r["o"][1]) == 1:
+                    sv = kn.get(r["o"][1][0])
+                    if sv and sv[0] == "c" and sv[1] in ("0", "1"):
+                        val = ("c", "1" if sv[1] == "0" else "0")
+            if val is not None:
+                kn[l] = val
+            elif l in kn:
+                del kn[l]
+        t = self.blocks[b]["t"]
+        if t["t"] == "call":
+            d = t["dest"]
+            if d and d[0] in kn:
+                del kn[d[0]]
+        return kn
+
+    def _feasible_succs(self, b, kn):
+        t = self.blocks[b]["t"]
+        if t["t"] == "switch" and t["o"][0] in ("c", "m") and len(t["o"][1]) == 1:
+            v = kn.get(t["o"][1][0])
+            if v and v[0] == "c":
+                if v[1] in t["vals"]:
+                    return [t["tgts"][t["vals"].index(v[1])]]
+                return [t["tgts"][-1]]
+        return self.normal_succ_map()[b]
+
+    def path_search(self, start_blocks, avoid, goal, known=None, limit=200000):
+        """like path_avoiding but path-sensitive for enum variants / constants assigned on the path
+        (drop flags, `match variant` correlations).  Returns a block path or None."""
+        interesting = self._interesting()
+        start_kn = dict(known or {})
+        dq = deque()
+        prev = {}
+        for s in start_blocks:
+            if s in avoid:
+                continue
+            st = (s, tuple(sorted(start_kn.items())))
+            if st not in prev:
+                prev[st] = None
+                dq.append(st)
+        n = 0
+        while dq:
+            st = dq.popleft()
+            b, knt = st
+            n += 1
+            if n > limit:
+                # give up path sensitivity: fall back to the insensitive (over-approximate) answer
+                return self.path_avoiding(start_blocks, avoid, goal)
+            if goal(b):
+                path = []
+                cur = st
+                while cur is not None:
+                    path.append(cur[0])
+                    cur = prev[cur]
+                return path[::-1]
+            kn = self._transfer(b, dict(knt), interesting)
+            for s in self._feasible_succs(b, kn):
+                if s in avoid:
+                    continue
+                ns = (s, tuple(sorted(kn.items())))
+                if ns not in prev:
+                    prev[ns] = st
+                    dq.append(ns)
+        return None
+
     def reach_from(self, start_blocks, avoid=()):
         sm = self.normal_succ_map()
         seen = set()
@@ -683,3 +809,51 @@ def bool_origin(f, local):
             continue
         return pol, ("rv", b, r)
     return pol, ("local", cur)
+
+
+def taint(f, local):
+    """forward value flow of `local` through moves, copies, casts and aggregates.
+    Returns (locals, field_stores, returned) where field_stores = [(block, place)]"""
+    T = {local}
+    stores = []
+    changed = True
+    while changed:
+        changed = False
+        for b, blk in enumerate(f.blocks):
+            for s in blk["s"]:
+                r = s["r"]
+                k = r.get("k")
+                ops = []
+                if k in ("use", "cast", "repeat", "un"):
+                    ops = [r["o"]]
+                elif k == "agg":
+                    ops = r["ops"]
+                elif k == "bin":
+                    ops = [r["a"], r["b"]]
+                elif k == "ref":
+                    ops = [["c", r["p"]]]
+                hit = False
+                for o in ops:
+                    if o[0] in ("c", "m") and o[1][0] in T:
+                        hit = True
+                if not hit:
+                    continue
+                p = s["p"]
+                if len(p) == 1 or all(isinstance(e, str) and (e.startswith("v:") or e.startswith("f:?") or e.startswith("f:.") or e.startswith("f:std::option")) for e in p[1:]):
+                    if p[0] not in T:
+                        T.add(p[0])
+                        changed = True
+                else:
+                    if (b, tuple(p)) not in [(x, tuple(y)) for x, y in stores]:
+                        stores.append((b, p))
+                    # writing into a field of a local aggregate also taints that local
+                    base = p[0]
+                    if "*" not in p[1:] and base not in T:
+                        T.add(base)
+                        changed = True
+    return T, stores, (0 in T)
+
+
+def arg_hits(t, T):
+    """indices of call arguments that are (moves/copies of) tainted locals"""
+    return [i for i, a in enumerate(t["args"]) if a[0] in ("c", "m") and a[1][0] in T]
